@@ -159,7 +159,7 @@ def one(rec, hub, seed, tier, i):
     omit = rng.random() < 0.4
     if vname in [s[0] for s in spec]:
         vname = "value"
-    df, info = F.render(spec, recs, rng, layout=layout, wide_dim=wide_dim, header=header, in_index=in_index, vname=vname, omit_single=omit, unnamed_year_index=bool(i % 6 == 4))
+    df, info = F.render(spec, recs, rng, layout=layout, wide_dim=wide_dim, header=header, in_index=in_index, vname=vname, omit_single=omit, unnamed_year_index=bool(i % 6 == 4), foreign_named_index=bool(i % 6 == 2))
     if csv:
         has_index = not isinstance(df.index, pd.RangeIndex) or df.index.names != [None]
         named = df.index.names != [None] or bool(info.get("unnamed_year_index"))  # an index that holds a dimension is written out
@@ -194,7 +194,7 @@ def one(rec, hub, seed, tier, i):
                 rec.violation(MF, "from_df:accepted-rows-labelled-with-an-unknown-item-of-a-single-item-dimension", {"column": str(singles[0]), "head": d3.head(3).astype(str).to_dict("split")["data"]})
             except Exception:
                 pass
-    if layout == "long" and header in ("names", "letters") and not csv and i % 7 in (0, 3):
+    if layout == "long" and header in ("names", "letters") and not csv and i % 7 in (0, 3) and not info.get("unnamed_year_index") and not info.get("foreign_named_index"):
         # (a) a refused import (a row missing / a row whose label only LOOKS like an item) must leave the dimensions - and with them every
         #     later export and import over them - untouched; (b) if such a frame is imported at all, no entry may come from the stranger row
         d4 = (df.reset_index() if df.index.names != [None] else df.copy()).reset_index(drop=True)
